@@ -100,6 +100,21 @@ class NewGen:
         if depth > 0 and self.rng.random() < opts.get("nested_underscore", 0.0):
             names.append("_inner")
         members = [self.field(n, tparams, depth == 0, opts) for n in names]
+        if depth == 0 and self.rng.random() < opts.get("crosspkg", 0.0):
+            # embedded struct declared in ANOTHER package (sub): exported fields are parameters, unexported ones cannot be set
+            self.ename += 1
+            sname = "Remote%d" % self.ename
+            sm = []
+            for n in self.names(self.rng.randint(1, 3), (), 1):
+                n = n[:1].upper() + n[1:]
+                ty, _ = self.rng.choice(PALETTE[:3])
+                sm.append({"k": "f", "name": n, "type": ty, "new": False, "def": None, "tagskip": False})
+            for j in range(self.rng.randint(0, 2)):
+                sm.insert(self.rng.randint(0, len(sm)), {"k": "f", "name": "sx%d_%d" % (self.ename, j), "type": "int", "new": False,
+                                                         "def": None, "tagskip": False, "foreign_unexported": True})
+            e = {"k": "e", "decl": {"name": sname, "tparams": [], "typedoc": None, "members": sm, "pkg": "sub"},
+                 "ptr": self.rng.random() < 0.4, "new": opts.get("new") and self.rng.random() < opts["new"], "pkg": "sub"}
+            members.insert(self.rng.randint(0, len(members)), e)
         for _ in range(ne):
             self.ename += 1
             base = self.rng.choice(EMBED_NAMES)
@@ -208,21 +223,47 @@ def render_struct(s):
         else:
             if m.get("new"):
                 lines.append("\t// shoot: new")
-            lines.append("\t%s%s" % ("*" if m["ptr"] else "", m["decl"]["name"]))
+            lines.append("\t%s%s%s" % ("*" if m["ptr"] else "", "sub." if m.get("pkg") == "sub" else "", m["decl"]["name"]))
     lines.append("}")
     return "\n".join(lines)
 
 
-def render_file(pkg, structs, extra_imports=()):
+def render_sub(structs):
+    """source of the `sub` package holding the cross-package embedded structs (None when there are none)"""
+    subs = []
+    for s in structs:
+        for d in embed_decls(s):
+            if d.get("pkg") == "sub" and all(x["name"] != d["name"] for x in subs):
+                subs.append(d)
+    if not subs:
+        return None
+    return "package sub\n\n" + "\n\n".join(render_struct(d) for d in subs) + "\n"
+
+
+def case_files(pkg, structs, case_id, fname="t.go"):
+    files = {fname: render_file(pkg, structs, case_id=case_id)}
+    sub = render_sub(structs)
+    if sub:
+        files["sub/sub.go"] = sub
+    return files
+
+
+def render_file(pkg, structs, extra_imports=(), case_id="x"):
     """structs: list of struct specs to declare (top-level ones and, automatically, their embeds)"""
     decls = []
     seen = set()
+    has_sub = False
     for s in structs:
         for d in [s] + embed_decls(s):
+            if d.get("pkg") == "sub":
+                has_sub = True
+                continue
             if d["name"] not in seen:
                 seen.add(d["name"])
                 decls.append(d)
     imports = set(extra_imports)
+    if has_sub:
+        imports.add('"verifcases/c_%s/sub"' % case_id)
     if any(uses_type(s, "time.") for s in decls):
         imports.add('"time"')
     if any("cmp." in c for s in decls for _, c in (s.get("tparams") or [])):
@@ -260,7 +301,7 @@ def field_has_doc(m):
 
 
 def skip_of(m, top):
-    return m["name"].startswith("_") or bool(m.get("tagskip"))
+    return m["name"].startswith("_") or bool(m.get("tagskip")) or bool(m.get("foreign_unexported"))
 
 
 def members_sexp(s, top=True):
@@ -283,7 +324,7 @@ def members_sexp(s, top=True):
             out.append(item)
         else:
             d = m["decl"]
-            out.append(["e", Q(d["name"]), Q(d["name"]), "ptr" if m["ptr"] else "val", "new" if m.get("new") else "nonew",
+            out.append(["e", Q(d["name"]), Q(("sub." if m.get("pkg") == "sub" else "") + d["name"]), "ptr" if m["ptr"] else "val", "new" if m.get("new") else "nonew",
                         ["body"] + members_sexp(d, False)])
     return out
 
@@ -316,6 +357,8 @@ def count_features(s, feats=None, depth=0):
                 inc("underscore" if depth == 0 else "nested-underscore")
         else:
             inc("embed-ptr" if m["ptr"] else "embed-val")
+            if m.get("pkg") == "sub":
+                inc("embed-other-package")
             inc("embed-depth-%d" % (depth + 1))
             if m.get("new"):
                 inc("embed-new-mark")
